@@ -14,7 +14,9 @@
                          parity and a stale parity block the data read from another disk can come out: the xor of the
                          blocks cancels, FixModel.reconstruct / xor_ids) passes the hash test of an entry only if it is the
                          recorded block of that entry
-     cf_search ...       a block fetched from another file of the array (state_search_fetch) is the recorded one
+     cf_search ...       a block fetched from another file of the array (state_search_fetch) is the recorded one; in the stripe
+                         theorems it is assumed for ANY file system fsx: the search reads the candidates as they are when it looks
+                         (FixModel.search_view: what fix wrote meanwhile is seen, a vanished candidate does not match)
      good_level v rec l  the parity block read for level l is the encoding of v
      restored F v b b'   b' = b with the positions of F replaced by v;  full v b b' : b' = v on the whole buffer
      blk_failed          the failed set of a stripe whose blocks are all BLK: bad entries with a recorded hash *)
@@ -79,7 +81,7 @@ Theorem C01_fix_step_restores :
     cf_junk hashf padz bs (flat_map (fent_of hashf bs c pos s) (seq 0 (length (c_disks c)))) ->
     cf_rec hashf padz bs (flat_map (fent_of hashf bs c pos s) (seq 0 (length (c_disks c)))) (map (prow (r_par s) pos) (seq 0 nlev)) v ->
     cf_vec hashf padz bs (flat_map (fent_of hashf bs c pos s) (seq 0 (length (c_disks c)))) v ->
-    cf_search hashf bs (co_nosearch o) fs0 (flat_map (fent_of hashf bs c pos s) (seq 0 (length (c_disks c)))) v ->
+    (forall fsx, cf_search hashf bs (co_nosearch o) fsx (flat_map (fent_of hashf bs c pos s) (seq 0 (length (c_disks c)))) v) ->
     length (filter (is_bad hashf bs c pos s) (seq 0 (length (c_disks c))))
       <= length (filter (good_level v (map (prow (r_par s) pos) (seq 0 nlev))) (seq 0 nlev)) ->
     nlev <= length (r_par s) ->
@@ -112,7 +114,7 @@ Theorem C01_fix_then_check_quiet :
     cf_junk hashf padz bs (flat_map (fent_of hashf bs c pos s) (seq 0 (length (c_disks c)))) ->
     cf_rec hashf padz bs (flat_map (fent_of hashf bs c pos s) (seq 0 (length (c_disks c)))) (map (prow (r_par s) pos) (seq 0 nlev)) v ->
     cf_vec hashf padz bs (flat_map (fent_of hashf bs c pos s) (seq 0 (length (c_disks c)))) v ->
-    cf_search hashf bs (co_nosearch o) fs0 (flat_map (fent_of hashf bs c pos s) (seq 0 (length (c_disks c)))) v ->
+    (forall fsx, cf_search hashf bs (co_nosearch o) fsx (flat_map (fent_of hashf bs c pos s) (seq 0 (length (c_disks c)))) v) ->
     length (filter (is_bad hashf bs c pos s) (seq 0 (length (c_disks c))))
       <= length (filter (good_level v (map (prow (r_par s) pos) (seq 0 nlev))) (seq 0 nlev)) ->
     nlev <= length (r_par s) ->
